@@ -337,6 +337,7 @@ func templateForms() []form {
 			tf("typeexpr", "param "+t, "{% macro A(p "+t+") %}{% end macro %}"), tf("typeexpr", "func-param "+t, "{% f := func(p "+t+") ("+t+") { return p } %}"),
 			tf("typeexpr", "type "+t, "{% type U "+t+" %}"), tf("typeexpr", "case "+t, "{% switch x.(type) %}{% case "+t+" %}{% end %}"))
 	}
+	f = append(f, calleeForms('t')...)
 	for _, e := range exprs {
 		f = append(f, tf("exprs", "show "+e, "{{ "+e+" }}"), tf("exprs", "short "+e, "{% v := "+e+" %}"), tf("exprs", "if "+e, "{% if "+e+" %}{% end %}"),
 			tf("exprs", "arg "+e, "{{ P("+e+") }}"), tf("exprs", "index "+e, "{{ s["+e+"] }}"), tf("exprs", "stmt "+e, "{% "+e+" %}"),
@@ -380,6 +381,130 @@ var exprs = []string{
 	"and a", "a and", "s contains 1", "str contains \"a\"", "s contains", "contains s", "s not contains 1", "not s contains 1", "n contains 1", "s contains str",
 	"render \"p.html\"", "render", "render n", "render \"p.html\" default", "M() default", "default 1", "a default b default n", "itea", "itea()", "$n", "n.(type)", "...", "s...",
 	"<-ch + 1", "ch <- 1", "<-<-ch", "&M", "&M()", "&1", "&nil", "*n", "*nil", "-str", "!n", "^a", "<-n", "<-s", "n.n.n", "s[0][0]", "s[0].f", "s[0]()", "n()", "str()", "1()", "nil()",
+}
+
+// import sets of a package of a module: every ordered choice of one to three of these paths (packages that exist, with
+// and without imports of their own; packages that do not exist; a native package), each with the alias styles in turn
+var importPaths = []string{"m/a", "m/b", "m/x", "m/y", "nat"}
+
+func importSets() []form {
+	styles := []string{"_ ", "", "k ", ". "}
+	var out []form
+	n := 0
+	var rec func(chosen []int)
+	rec = func(chosen []int) {
+		if len(chosen) > 0 {
+			for variant := 0; variant < 2; variant++ {
+				var lines, names []string
+				for i, c := range chosen {
+					st := "_ "
+					if variant == 1 {
+						st = styles[(n+i)%len(styles)]
+						if st == "k " {
+							st = fmt.Sprintf("k%d ", i)
+						}
+					}
+					lines = append(lines, "import "+st+"\""+importPaths[c]+"\"")
+					names = append(names, strings.TrimSpace(st)+importPaths[c])
+				}
+				out = append(out, df("imports", strings.Join(names, ","), strings.Join(lines, "\n")))
+				if len(chosen) > 1 {
+					out = append(out, df("imports", "group:"+strings.Join(names, ","), "import (\n"+strings.ReplaceAll(strings.Join(lines, "\n"), "import ", "\t")+"\n)"))
+				}
+				n++
+			}
+		}
+		if len(chosen) == 3 {
+			return
+		}
+		for c := range importPaths {
+			dup := false
+			for _, x := range chosen {
+				dup = dup || x == c
+			}
+			if !dup {
+				rec(append(append([]int(nil), chosen...), c))
+			}
+		}
+	}
+	rec(nil)
+	return out
+}
+
+// callees: every form of the operand of a call statement, `defer` and `go`: functions and macros, literals, values of
+// function type in variables, slices, maps, struct fields and interfaces, builtins and conversions, native functions,
+// methods of native struct, pointer and INTERFACE values, method values and expressions, functions of an imported
+// Scriggo package and macros of a file imported under a name. {setup statement, call}; the native and package names
+// are those of the rich roles (go flavour: nat.X, p.F; template flavour: X, q.MM).
+var calleesCommon = [][2]string{
+	{"", "M()"}, {"", "P(1)"}, {"", "func() {}()"}, {"", "func(i int) int { return i }(1)"}, {"", "(M)()"}, {"f := func() {}", "f()"}, {"f := M", "f()"},
+	{"fs := []func(){func() {}}", "fs[0]()"}, {"fm := map[string]func(){}", "fm[\"k\"]()"}, {"st := struct{ F func() }{func() {}}", "st.F()"},
+	{"var fi interface{} = func() {}", "fi.(func())()"}, {"var fn func()", "fn()"}, {"", "len(s)"}, {"", "recover()"}, {"", "panic(1)"}, {"", "print(1)"},
+	{"", "println()"}, {"", "close(ch)"}, {"", "copy(s, s)"}, {"", "append(s, 1)"}, {"", "delete(map[string]int{}, \"a\")"}, {"", "new(int)"},
+	{"", "make([]int, 1)"}, {"", "int(n)"}, {"", "(func())(nil)()"}, {"", "M"}, {"", "n"}, {"", "func() {}"}, {"", "M()()"}, {"", "<-ch"},
+}
+var calleesNative = [][2]string{ // `@` stands for `nat.` in programs and for nothing in templates (Globals)
+	{"", "@F()"}, {"", "@FInt(1)"}, {"", "@FV(1, 2)"}, {"", "@FV()"}, {"", "@FV([]interface{}{1}...)"}, {"", "@FVF(func() {})"}, {"", "@FVF()"},
+	{"", "@Iv.M()"}, {"", "@Iv.N(1)"}, {"", "@NilI.M()"}, {"", "@Sv.M()"}, {"", "@Sv.N(1)"}, {"", "@Sv.V()"}, {"", "@Sv.V(func() {})"}, {"", "@Pv.PM()"}, {"", "@Pv.M()"},
+	{"", "@FI().M()"}, {"", "@Fv()"}, {"", "@Err.Error()"}, {"", "@Iv.M"}, {"mv := @Iv.M", "mv()"}, {"mv := @Sv.M", "mv()"}, {"", "@S.M(@Sv)"}, {"", "@I.M(@Iv)"},
+	{"", "(*@S).PM(@Pv)"}, {"i := @FI()", "i.M()"}, {"var i @I = @Sv", "i.N(2)"}, {"var i interface{ M() } = @Iv", "i.M()"}, {"e := @Any", "e.(@I).M()"},
+	{"", "@S{}.M()"}, {"", "(&@S{}).PM()"}, {"", "@Iv.Undefined()"}, {"", "@C()"},
+}
+var calleesGoPkg = [][2]string{{"", "p.F()"}, {"", "(p.F)()"}, {"pf := p.F", "pf()"}, {"", "p.Undefined()"}, {"", "p.F"}}
+var calleesNamedImport = [][2]string{{"", "q.MM()"}, {"", "(q.MM)()"}, {"qm := q.MM", "qm()"}, {"", "q.Undefined()"}, {"", "q.MM"}, {"", "q.MV()"}}
+
+func calleeForms(syn byte) []form {
+	var cs [][2]string
+	cs = append(cs, calleesCommon...)
+	for _, c := range calleesNative {
+		cs = append(cs, [2]string{strings.ReplaceAll(c[0], "@", ""), strings.ReplaceAll(c[1], "@", "")})
+		if syn == 'g' {
+			cs = append(cs, [2]string{strings.ReplaceAll(c[0], "@", "nat."), strings.ReplaceAll(c[1], "@", "nat.")})
+		}
+	}
+	cs = append(cs, calleesNamedImport...)
+	if syn == 'g' {
+		cs = append(cs, calleesGoPkg...)
+	}
+	var out []form
+	for _, c := range cs {
+		setup, call := c[0], c[1]
+		if syn == 't' {
+			pre := ""
+			if setup != "" {
+				pre = "{% " + setup + " %}"
+			}
+			out = append(out, tf("callee", "defer "+call, pre+"{% defer "+call+" %}"), tf("callee", "go "+call, pre+"{% go "+call+" %}"),
+				tf("callee", "call "+call, pre+"{% "+call+" %}"), tf("callee", "show "+call, pre+"{{ "+call+" }}"),
+				tf("callee", "defer-in-macro "+call, pre+"{% macro A %}{% defer "+call+" %}{% end macro %}{{ A() }}"),
+				tf("callee", "defer-in-for "+call, pre+"{% for i := 0; i < 2; i++ %}{% defer "+call+" %}{% end %}"))
+			continue
+		}
+		pre := ""
+		if setup != "" {
+			pre = setup + "\n"
+		}
+		out = append(out, gf("callee", "defer "+call, pre+"defer "+call), gf("callee", "go "+call, pre+"go "+call), gf("callee", "call "+call, pre+call),
+			gf("callee", "assign "+call, pre+"_ = "+call), gf("callee", "defer-in-funclit "+call, pre+"func() { defer "+call+" }()"),
+			gf("callee", "defer-in-for "+call, pre+"for i := 0; i < 2; i++ { defer "+call+" }"), gf("callee", "go-in-funclit "+call, pre+"func() { go "+call+" }()"))
+	}
+	return out
+}
+
+// typed nil conversions of every type form, as argument of every kind of call
+func nilConvForms() []form {
+	var out []form
+	for _, t := range typeExprs {
+		c := "(" + t + ")(nil)"
+		out = append(out, gf("nilconv", "param "+t, "func(a "+t+") {}("+c+")"), gf("nilconv", "variadic "+t, "func(a ..."+t+") {}("+c+")"),
+			gf("nilconv", "variadic2 "+t, "func(a ..."+t+") {}("+c+", "+c+")"), gf("nilconv", "variadic-any "+t, "func(a ...interface{}) {}("+c+")"),
+			gf("nilconv", "variadic-after "+t, "func(i int, a ..."+t+") {}(1, "+c+")"), gf("nilconv", "append "+t, "_ = append([]"+t+"{}, "+c+")"),
+			gf("nilconv", "println "+t, "println("+c+")"), gf("nilconv", "assign "+t, "_ = "+c), gf("nilconv", "var "+t, "var v "+t+" = "+c+"; _ = v"),
+			gf("nilconv", "compare "+t, "_ = "+c+" == nil"), gf("nilconv", "defer "+t, "defer func(a ..."+t+") {}("+c+")"),
+			gf("nilconv", "return "+t, "_ = func() "+t+" { return "+c+" }()"), gf("nilconv", "native-variadic "+t, "nat.FV("+c+")"),
+			gf("nilconv", "global-variadic "+t, "FV("+c+")"), gf("nilconv", "spread "+t, "func(a ..."+t+") {}([]"+t+"{"+c+"}...)"))
+	}
+	return out
 }
 
 func goForms() []form {
@@ -535,6 +660,8 @@ func goForms() []form {
 			gf("typeexpr", "func-param "+t, "_ = func(p "+t+") ("+t+") { return p }"), gf("typeexpr", "type "+t, "type U "+t),
 			gf("typeexpr", "case "+t, "switch x.(type) {\ncase "+t+":\n}"))
 	}
+	f = append(f, calleeForms('g')...)
+	f = append(f, nilConvForms()...)
 	for _, e := range exprs {
 		f = append(f, gf("exprs", "assign "+e, "_ = "+e), gf("exprs", "short "+e, "v := "+e+"; _ = v"), gf("exprs", "if "+e, "if "+e+" {\n}"),
 			gf("exprs", "arg "+e, "_ = P("+e+")"), gf("exprs", "index "+e, "_ = s["+e+"]"), gf("exprs", "stmt "+e, e), gf("exprs", "const "+e, "const c = "+e),
@@ -550,6 +677,10 @@ func declForms() []form {
 		f = append(f, df("typeexpr", "var "+t, "var v "+t), df("typeexpr", "type "+t, "type U "+t), df("typeexpr", "alias "+t, "type U = "+t),
 			df("typeexpr", "param "+t, "func g(p "+t+") ("+t+") { return p }"), df("typeexpr", "receiver "+t, "func (r "+t+") g() {}"),
 			df("typeexpr", "field "+t, "type U struct { f "+t+" }"), df("typeexpr", "var-literal "+t, "var v = "+t+"{}"))
+	}
+	f = append(f, importSets()...)
+	for _, t := range typeExprs {
+		f = append(f, df("nilconv", "var-variadic "+t, "var v = func(a ..."+t+") int { return 0 }(("+t+")(nil))"))
 	}
 	for _, e := range exprs {
 		f = append(f, df("exprs", "var "+e, "var v = "+e), df("exprs", "const "+e, "const c = "+e), df("exprs", "typed-var "+e, "var v int = "+e),
@@ -764,7 +895,11 @@ func modify(f form, all bool) []subject {
 	if f.syn != 't' {
 		endUsing = "end using"
 	}
-	if f.cat == "typeexpr" || f.cat == "exprs" { // many forms: unmodified in the core roles, cut short in one role in turn
+	if f.cat == "imports" || f.cat == "callee" { // in the roles made for them (see place)
+		add("plain", 4, join(f.pieces))
+		return out
+	}
+	if f.cat == "typeexpr" || f.cat == "exprs" || f.cat == "nilconv" { // many forms: unmodified in the core roles, cut short in one role in turn
 		add("plain", 3, join(f.pieces))
 		toks := Tokens([]byte(f.pieces[0]))
 		depth := 0 // quick: the lists hold cut-off type expressions and expressions of their own
@@ -990,7 +1125,7 @@ const pkgP = "package p\n\nfunc F() int { return 1 }\n"
 const pkgCyc = "package cyc\n\nimport \"m/cyc\"\n"
 
 func mcase(main, p string) BuildCase {
-	return pcase("go.mod", modFiles, "main.go", main, "p/p.go", p, "cyc/cyc.go", pkgCyc)
+	return pcase("go.mod", modFiles, "main.go", main, "p/p.go", p, "cyc/cyc.go", pkgCyc, "a/a.go", "package a\n", "b/b.go", "package b\n\nimport _ \"m/a\"\n")
 }
 
 func roles() []role {
@@ -1118,6 +1253,27 @@ func roles() []role {
 		role{"g:template-statements-js", 'g', func(s string) BuildCase { return tcase("index.js", "index.js", tPrelude+stmts(s)) }},
 		role{"g:template-statements-last", 'g', func(s string) BuildCase { return tcase("index.html", "index.html", tPrelude+"{%%\n"+s) }},
 	)
+	// rich roles: the native package "nat" (programs: imported; templates: also as globals), an imported Scriggo package
+	// p and a template file imported under the name q
+	withKind := func(k byte, b BuildCase) BuildCase { b.Kind = k; return b }
+	richT := `{% import q "m.html" %}` + tPrelude
+	r = append(r,
+		role{"t:rich-main", 't', func(s string) BuildCase { return withKind('u', tcase("index.html", "index.html", richT+s)) }},
+		role{"t:rich-extending-in-macro", 't', func(s string) BuildCase {
+			return withKind('u', tcase("index.html", "index.html", ext+richT+"{% macro Body %}"+s+"{% end macro %}", "layout.html", "<html>{{ Body() }}</html>"))
+		}},
+		role{"g:rich-main-body", 'g', func(s string) BuildCase {
+			return withKind('q', mcase("package main\n\nimport \"nat\"\nimport \"m/p\"\n\n"+gPrelude+"var _ = nat.C\nvar _ = p.F\n\nfunc main() {\n"+s+"\n}\n", pkgP))
+		}},
+		role{"g:rich-imported-package-body", 'g', func(s string) BuildCase {
+			return withKind('q', mcase("package main\n\nimport \"m/p\"\n\nfunc main() { p.G() }\n",
+				"package p\n\nimport \"nat\"\n\n"+gPrelude+"var _ = nat.C\nfunc F() int { return 1 }\nfunc G() {\n"+s+"\n}\n"))
+		}},
+		role{"g:rich-template-statements", 'g', func(s string) BuildCase { return withKind('u', tcase("index.html", "index.html", richT+stmts(s))) }},
+		role{"d:rich-module-main-package", 'd', func(s string) BuildCase {
+			return withKind('q', mcase("package main\n\n"+s+"\n\n"+gPrelude+"func main() {}\n", pkgP))
+		}},
+	)
 	// package-level declarations
 	r = append(r,
 		role{"d:main-package", 'd', func(s string) BuildCase {
@@ -1196,6 +1352,15 @@ func Forms(r *proto.Rand, quick bool, nRandom int) []FormCase {
 			level = 0
 		}
 		turn++
+		if level == 4 { // import sets: the roles with a module; callees: the rich roles (natives, named imports)
+			for _, ro := range rs {
+				if s.cat == "imports" && (strings.Contains(ro.name, "module") || strings.Contains(ro.name, "imported-package")) ||
+					s.cat == "callee" && strings.Contains(ro.name, "rich") {
+					emit(s, ro)
+				}
+			}
+			return
+		}
 		if level == 3 { // the bulk forms (type expressions, expressions)
 			level = 2
 			if all {
@@ -1239,7 +1404,7 @@ func Forms(r *proto.Rand, quick bool, nRandom int) []FormCase {
 		if !quick { // the bulk forms: one in eight, chosen by the seed
 			var in2 []form
 			for _, f := range inner {
-				if (f.cat != "typeexpr" && f.cat != "exprs") || r.Intn(8) == 0 {
+				if (f.cat != "typeexpr" && f.cat != "exprs" && f.cat != "nilconv" && f.cat != "callee" && f.cat != "imports") || r.Intn(8) == 0 {
 					in2 = append(in2, f)
 				}
 			}
